@@ -13,6 +13,7 @@
 #include <igris/util/hexascii.h>
 #include <sanitizer/asan_interface.h>
 #include <string>
+#include <unistd.h>
 #include <vector>
 
 using std::string;
@@ -485,6 +486,77 @@ MC_INIT
         mc::describe("length %zu (%zu+%d), %s", n, base[c / 30], c / 10 % 3, pn.c_str());
         check_string(m.data(), n);
         mc::outcome(mc::fmt("%zu/%d", n % 3, pat));
+        mc::nontrivial();
+    });
+
+    // (g) the codecs called during STATIC INITIALISATION of a translation unit linked before them: the probe
+    // executable (c18_early.o first, the library objects, c18_late.o last) runs the RFC 4648 vectors from a
+    // global constructor and again from main(); both must equal the references.  The probe is a separate
+    // process because a crash before main() must be an observation, not the end of the check.
+    mc::add_check("static_init_time", [] {
+        (void)mc::choose(1); // a single case: the probe process runs all vectors
+        mc::describe("RFC 4648 vectors pushed through every codec from a global constructor linked before the library");
+        char self[4096];
+        ssize_t n = readlink("/proc/self/exe", self, sizeof self - 1);
+        if (n <= 0)
+            mc::harness_error("readlink /proc/self/exe");
+        self[n] = 0;
+        string probe = string(self).substr(0, string(self).rfind('/')) + "/c18early";
+        if (access(probe.c_str(), X_OK) != 0)
+            mc::harness_error("probe %s missing", probe.c_str());
+        FILE *f = popen((probe + " 2>/dev/null").c_str(), "r");
+        if (!f)
+            mc::harness_error("popen");
+        string out;
+        char buf[4096];
+        size_t k;
+        while ((k = fread(buf, 1, sizeof buf, f)) > 0)
+            out.append(buf, k);
+        int st = pclose(f);
+        if (st != 0)
+        {
+            mc::violation("C18.static_init_time.crash",
+                          "a program whose first translation unit calls the codecs from a global constructor died (wait status 0x%x, %zu bytes of output) before or while reporting", st, out.size());
+            return;
+        }
+        // expected text
+        static const char *const vec[] = {"", "f", "fo", "foo", "foob", "fooba", "foobar", "\xfb\xff", "\xff\xff\xfe", "\x00\x80\x7f\xff"};
+        static const size_t len[] = {0, 1, 2, 3, 4, 5, 6, 2, 3, 4};
+        auto hx = [](const string &v) { return mc::hex(v.data(), v.size()); };
+        string body;
+        for (int i = 0; i < 10; i++)
+        {
+            string x(vec[i], len[i]);
+            const uint8_t *d = (const uint8_t *)x.data();
+            body += mc::fmt("b64e.%d %s\n", i, hx(ref_b64(d, x.size(), false)).c_str());
+            body += mc::fmt("b64d.%d %s\n", i, hx(x).c_str());
+            body += mc::fmt("b64ue.%d %s\n", i, hx(ref_b64(d, x.size(), true)).c_str());
+            body += mc::fmt("b64ud.%d %s\n", i, hx(x).c_str());
+            body += mc::fmt("hexs.%d %s\n", i, hx(ref_hex(d, x.size())).c_str());
+            body += mc::fmt("hexe.%d %s\n", i, hx(ref_hex(d, x.size())).c_str());
+            body += mc::fmt("hexd.%d %s\n", i, hx(x).c_str());
+        }
+        uint32_t v32 = 0xDEADBEEFu;
+        uint16_t v16 = 0xA55A;
+        body += "u32e.0 " + hx("DEADBEEF") + "\n" + "u32d.0 " + mc::hex(&v32, 4) + "\n" + "u64e.0 " + hx("0123456789ABCDEF") + "\n" + "u16e.0 " + hx("A55A") + "\n" +
+                "u16d.0 " + mc::hex(&v16, 2) + "\n";
+        string want = "order late_marker_in_main=1\norder late_marker_at_early_time=0\nphase static_init\n" + body + "phase main\n" + body;
+        if (out.find("order late_marker_at_early_time=0\n") == string::npos || out.find("order late_marker_in_main=1\n") == string::npos)
+            mc::harness_error("probe: the early constructor did not run before the last object file's initialiser (link order?): %s", out.substr(0, 200).c_str());
+        if (out != want)
+        {
+            // first differing line
+            size_t i = 0;
+            while (i < out.size() && i < want.size() && out[i] == want[i])
+                i++;
+            size_t b = want.rfind('\n', i ? i - 1 : 0);
+            b = b == string::npos ? 0 : b + 1;
+            string wl = want.substr(b, want.find('\n', b) - b), ol = b < out.size() ? out.substr(b, out.find('\n', b) - b) : string("<missing>");
+            bool in_static = out.rfind("phase main\n", i) == string::npos;
+            mc::violation(in_static ? "C18.static_init_time.value" : "C18.static_init_time.value_from_main", "got line '%s', want '%s'", ol.c_str(), wl.c_str());
+        }
+        mc::outcome(mc::fmt("%zu", out.size()));
+        mc::more_cases(2 * 75 - 1, 2 * 75 - 1);
         mc::nontrivial();
     });
 
